@@ -47,7 +47,8 @@ def gen_design(r, features=()):
         for j in range(r.randint(1, 4)):
             m.ports.append(("p%d" % j, r.choice(["input", "output", "inout"]), r.choice([1, 1, 2, 4])))
         if "params" in features and r.random() < 0.4:
-            m.params = {"INIT": r.choice(["4'h8", "16", "\"str\""])}
+            # a header parameter may carry a range: #(parameter [3:0] INIT = 4'h8, parameter DEPTH = 8); the reader keys it "[3:0] INIT"
+            m.params = {r.choice(["INIT", "INIT", "[3:0] INIT", "[7:0] INIT"]): r.choice(["4'h8", "16", "\"str\""])}
             for extra in r.sample(["WIDTH", "DEPTH", "MODE"], r.choice([0, 0, 1, 2])):
                 m.params[extra] = r.choice(["8", "1'b0", "\"fast\""])
         if "undeclared" in features and r.random() < 0.4:
@@ -67,7 +68,12 @@ def gen_design(r, features=()):
             w = r.choice([1, 1, 2, 4, 6])
             m.nets[esc(r, "n%d" % j, features)] = (lsb + w - 1, lsb)
         if "attrs" in features and r.random() < 0.3:
-            m.attrs = {"keep": None} if r.random() < 0.5 else {"mark": "\"yes\""}
+            m.attrs = rand_attrs(r)
+        if "params" in features and r.random() < 0.3:
+            # header parameters of an ordinary module, possibly ranged, several of them
+            m.params = {r.choice(["INIT", "[3:0] INIT", "[7:0] SEL"]): r.choice(["4'h8", "16"])}
+            for extra in r.sample(["WIDTH", "DEPTH", "MODE"], r.choice([0, 1, 2])):
+                m.params[extra] = r.choice(["8", "1'b0", "\"fast\""])
         nonprim = [x for x in mods if not x.prim]
         for j in range(r.randint(0, 4)):
             ref = r.choice(mods)
@@ -112,7 +118,7 @@ def gen_design(r, features=()):
                 for extra in r.sample(["IS_C_INVERTED", "WIDTH", "LOC"], r.choice([0, 1, 2, 3])):
                     ins.params[extra] = r.choice(["1'b0", "12", "\"X1Y2\""])
             if "attrs" in features and r.random() < 0.3:
-                ins.attrs = {"DONT_TOUCH": "\"true\""} if r.random() < 0.5 else {"flag": None}
+                ins.attrs = rand_attrs(r)
             m.insts.append(ins)
         if "assigns" in features:
             for j in range(r.randint(0, 2)):
@@ -163,10 +169,21 @@ def fmt_expr(r, m, atoms):
     return "{" + ", ".join(fmt_atom(r, m, a) for a in atoms) + "}"
 
 
-def fmt_attrs(attrs):
+ATTR_POOL = [("keep", None), ("mark", "\"yes\""), ("DONT_TOUCH", "\"true\""), ("flag", None), ("LOC", "\"X1Y2\"")]
+
+
+def rand_attrs(r):
+    """1-3 attributes, valued and value-less ones in any order"""
+    return dict(r.sample(ATTR_POOL, r.choice([1, 1, 2, 3])))
+
+
+def fmt_attrs(attrs, r=None):
     if not attrs:
         return ""
-    return "(* " + ", ".join(k if v is None else "%s = %s" % (k, v) for k, v in attrs.items()) + " *) "
+    items = [k if v is None else "%s = %s" % (k, v) for k, v in attrs.items()]
+    if r is not None and len(items) > 1 and r.random() < 0.5:
+        return "".join("(* %s *) " % x for x in items)         # one block per attribute
+    return "(* " + ", ".join(items) + " *) "
 
 
 def write(mods, r, features=()):
@@ -185,7 +202,7 @@ def write(mods, r, features=()):
         if m.prim:
             out.append("`celldefine")
         rng = lambda w: "[%d:0] " % (w - 1) if w > 1 else ""  # noqa: E731
-        head = fmt_attrs(m.attrs) + "module %s " % m.name
+        head = fmt_attrs(m.attrs, r) + "module %s " % m.name
         if m.params and m.declared:
             head += "#(" + ", ".join("parameter %s = %s" % kv for kv in m.params.items()) + ") "
         if m.ansi and not m.prim:
@@ -222,7 +239,7 @@ def write(mods, r, features=()):
                     items = [fmt_expr(r, m, at) for at in ins.positional]
                 else:
                     items = [".%s(%s)" % (pn, fmt_expr(r, m, at)) for pn, at in ins.conns.items()]
-                out.append("  %s%s %s%s (%s);" % (fmt_attrs(ins.attrs), ins.ref, par, ins.name, ", ".join(items)))
+                out.append("  %s%s %s%s (%s);" % (fmt_attrs(ins.attrs, r), ins.ref, par, ins.name, ", ".join(items)))
                 if defp and r.random() < 0.5:
                     deferred += defp
                 else:
